@@ -196,3 +196,9 @@ MUTANTS += [
     ("c08-sink-bytes-by-flow-always", "onl/packet/sink.py", "        self.bytes_received[rec_index] += packet.size", "        self.bytes_received[packet.flow_id] += packet.size", ["C08"]),
     ("c08-switch-wrong-port-list", "onl/netdev/switch.py", "        self.demux = FIBDemux(fib=None, outs=self.egress_ports, default_out=None)", "        self.demux = FIBDemux(fib=None, outs=self.egress_ports[::-1], default_out=None)", ["C08", "C18"]),
 ]
+
+MUTANTS += [
+    # ---- after the seventh round of seeded changes: attributes nothing in the code should look at
+    ("c12-tx-time-from-payload", "onl/scheduler/base.py", "yield self.env.timeout(packet.size * 8.0 / self.rate)",
+     "yield self.env.timeout((len(packet.payload) if isinstance(packet.payload, bytes) else packet.size) * 8.0 / self.rate)", ["C12"]),
+]
